@@ -948,6 +948,29 @@ pub fn run_c05(run: &mut Run) -> Stats {
             if_ranges.push(x);
         }
         if_ranges.push(e[..n - 1].to_vec());
+        // near misses that a "normalising" comparison would accept: a backslash inserted at every
+        // position inside the quotes (quoted-pair), a backslash removed, the case changed,
+        // percent-encoding of one byte
+        let open = e.iter().position(|b| *b == b'"').unwrap_or(0);
+        for i in open + 1..n {
+            let mut y = e.clone();
+            y.insert(i, b'\\');
+            if_ranges.push(y);
+        }
+        if let Some(i) = e.iter().position(|b| *b == b'\\') {
+            let mut y = e.clone();
+            y.remove(i);
+            if_ranges.push(y);
+        }
+        if e.iter().any(|b| b.is_ascii_lowercase()) {
+            if_ranges.push(e.to_ascii_uppercase());
+        }
+        if n > open + 2 {
+            let mut y = e[..open + 1].to_vec();
+            y.extend_from_slice(format!("%{:02X}", e[open + 1]).as_bytes());
+            y.extend_from_slice(&e[open + 2..]);
+            if_ranges.push(y);
+        }
     }
     if_ranges.sort();
     if_ranges.dedup();
@@ -1694,6 +1717,97 @@ pub fn run_pairs(prop: &str) -> Stats {
                 st.count("request_pairs_on_a_fresh_thread", 1);
             }
         });
+    })
+}
+
+// -------------------------------------------------------------------------------------------
+// The "zoo": every kind of entity against every kind of request
+
+/// Each check above takes the product of the dimensions ITS property quantifies over and keeps
+/// the others plain (one tag, one header set ...). The seeded changes that were missed at first
+/// nearly all needed a value that some *other* check had in its alphabet. This sweep crosses the
+/// rich alphabets of all dimensions once: every entity of {12 lengths} x {13 entity tags: absent,
+/// strong, weak, with comma / semicolon / '*' / backslash / obs-text, empty, 300 bytes} x {8
+/// modification times: absent, epoch, epoch + 0.5 s, 1 s, 1994 whole / +1 ns / +999 999 999 ns,
+/// 2100} x {8 entity header sets} against ~50 requests built from that entity's own length and
+/// validators (every range form, single / multipart / unsatisfiable / many specs, If-Range hit and
+/// miss, each conditional header hit and miss, the documented precedence pairs, GET and HEAD),
+/// judged by the full reference model. Run by every serve_mc check for its own property.
+pub fn run_zoo(prop: &str, tier: Tier) -> Stats {
+    let lens: Vec<u64> = gen::LENS_THIN.to_vec();
+    let etags = gen::etags_rich();
+    let mtimes: Vec<Option<std::time::SystemTime>> = vec![None, Some(gen::t(0, 0)), Some(gen::t(0, 500_000_000)), Some(gen::t(1, 0)), Some(gen::t(gen::LM, 0)), Some(gen::t(gen::LM, 1)), Some(gen::t(gen::LM, 999_999_999)), Some(gen::t(4_102_444_800, 7))];
+    let hsets = gen::header_sets();
+    let mut ents: Vec<(u64, usize, usize, usize)> = Vec::new();
+    for &l in &lens {
+        for e in 0..etags.len() {
+            for m in 0..mtimes.len() {
+                for h in 0..hsets.len() {
+                    // quick: a third of the product (every pair of dimensions still meets)
+                    if tier == Tier::Quick && (e + m + h + (l % 7) as usize) % 3 != 0 {
+                        continue;
+                    }
+                    ents.push((l, e, m, h));
+                }
+            }
+        }
+    }
+    let ev = Eval { prop, extra_polls: 2 };
+    par_for(ents.len() as u64, threads(), |i, st| {
+        let (l, ei, mi, hi) = ents[i as usize];
+        let etag = etags[ei].clone();
+        let mt = mtimes[mi];
+        let entity = ent(l, etag.as_deref(), mt, hsets[hi].clone(), vec![]);
+        let lm_secs = mt.map(|t| t.duration_since(std::time::UNIX_EPOCH).unwrap().as_secs());
+        let mut ranges: Vec<Option<String>> = vec![None, Some("bytes=0-0".into()), Some("bytes=-1".into()), Some("bytes=1-".into()), Some(format!("bytes={l}-")), Some("bytes=0-0,2-3".into()), Some("bytes=5-6, 0-1,5-6".into()), Some("bytes=-2,0-0".into()), Some(format!("bytes=0-{}", u64::MAX))];
+        ranges.push(Some(format!("bytes={}", (0..20u64).map(|k| format!("{}-{}", 7 * k, 7 * k + 2)).collect::<Vec<_>>().join(","))));
+        let mut conds: Vec<Vec<(&str, Vec<u8>)>> = vec![vec![]];
+        if let Some(t) = &etag {
+            conds.push(vec![("if-none-match", t.clone())]);
+            conds.push(vec![("if-match", t.clone())]);
+            conds.push(vec![("if-range", t.clone())]);
+            conds.push(vec![("if-none-match", [&b"\"zz\", "[..], &t[..]].concat())]);
+        }
+        conds.push(vec![("if-none-match", b"\"zz\"".to_vec())]);
+        conds.push(vec![("if-match", b"\"zz\"".to_vec())]);
+        conds.push(vec![("if-range", b"\"zz\"".to_vec())]);
+        conds.push(vec![("if-match", b"*".to_vec())]);
+        if let Some(s) = lm_secs {
+            conds.push(vec![("if-modified-since", fmt_imf(s).into_bytes())]);
+            conds.push(vec![("if-unmodified-since", fmt_imf(s).into_bytes())]);
+            conds.push(vec![("if-modified-since", fmt_imf(s + 1).into_bytes()), ("if-none-match", b"\"zz\"".to_vec())]);
+            conds.push(vec![("if-unmodified-since", fmt_imf(s.saturating_sub(1)).into_bytes()), ("if-match", b"*".to_vec())]);
+            conds.push(vec![("if-range", fmt_imf(s).into_bytes())]);
+            if s > 0 {
+                conds.push(vec![("if-unmodified-since", fmt_rfc850(gen::LM).into_bytes())]);
+            }
+        }
+        let mut order = i << 20;
+        for (ci, c) in conds.iter().enumerate() {
+            for (ri, r) in ranges.iter().enumerate() {
+                // the full conditional x range product only for a few combinations
+                if ci > 0 && ri > 0 && !(ri == 1 || ri == 5 || ri == 4) {
+                    continue;
+                }
+                for me in ["GET", "HEAD"] {
+                    if me == "HEAD" && (ci + ri) % 2 == 1 {
+                        continue;
+                    }
+                    let mut req = Req::new(me);
+                    if let Some(r) = r {
+                        req = req.with("range", r.as_bytes());
+                    }
+                    for (k, v) in c {
+                        req = req.with(k, v);
+                    }
+                    order += 1;
+                    if ev.run(&req, &entity, st, order).is_some() {
+                        st.nontrivial(&("zoo", i, ci, ri, me));
+                        st.count("zoo_executions", 1);
+                    }
+                }
+            }
+        }
     })
 }
 
